@@ -12,10 +12,11 @@ import (
 
 func init() {
 	register(&property{
-		ID:  "C18",
-		Run: runC18,
+		ID:    "C18",
+		Run:   runC18,
+		Modes: []string{"deadlock"},
 		Meta: propMeta{
-			Explanation: "Static clauses of runtime/timed (Queue, Executor, TaskExecutor) and ds/generalheap on all CFG paths: (1) Poll returns the polled value only inside a timer.C arm or on the ignore-pending-timeouts edge of the shutdown arm; cancel arms restart the loop; the cancel-pending edge returns the empty value; (2) Cancel removes from the heap and closes the cancel channel under the heap mutex, the close is guarded by the closed-test (select default), removal guarded by Index() != -1; (3) heap only under heapMutex, isShutdown only under shutdownMutex, waitCond protocol (wait loop under the Locker, signals after the critical section), and every state change that can end a wait (push, shutdown) wakes on every path; (4) an element is accepted (pushed) only in one critical section with the shutdown check; (5) Executor: WaitGroup.Add before go, worker loop ends only on the empty value, Done after it; TaskExecutor: map only under its mutex, re-scheduling cancels the previous element first, the wrapper removes its identifier only if the entry is still its own task, Cancel returns true only when it found and cancelled an entry; (6) comparator directions of HeapKey.CompareTo and generalheap.Less; heap index maintenance in Swap/Push/Pop.",
+			Explanation: "Static clauses of runtime/timed (Queue, Executor, TaskExecutor) and ds/generalheap on all CFG paths: (1) Poll returns the polled value only inside a timer.C arm or on the ignore-pending-timeouts edge of the shutdown arm; cancel arms restart the loop; the cancel-pending edge returns the empty value; (2) Cancel removes from the heap and closes the cancel channel under the heap mutex, the close is guarded by the closed-test (select default), removal guarded by Index() != -1; (3) heap only under heapMutex, isShutdown only under shutdownMutex, waitCond protocol (wait loop under the Locker, signals after the critical section), and every state change that can end a wait (push, shutdown) wakes on every path; (4) an element is accepted (pushed) only in one critical section with the shutdown check; (5) Executor: WaitGroup.Add before go, worker loop ends only on the empty value, Done after it; TaskExecutor: map only under its mutex, re-scheduling cancels the previous element first, the wrapper removes its identifier only if the entry is still its own task, Cancel returns true only when it found and cancelled an entry; (6) comparator directions of HeapKey.CompareTo and generalheap.Less; heap index maintenance in Swap/Push/Pop. Also: after popping a candidate every path to a timer arm arms a timer for it (a new one, or one stopped and drained since the cancel arm); the previous task of an identifier is looked up and cancelled before the replacement is scheduled.",
 			NotDecided:  "timing relative to a clock, eventual delivery over schedules, Cancel's result when the callback already runs",
 			Assumptions: []string{"container/heap and time.Timer behave as documented"},
 		},
